@@ -66,8 +66,25 @@ fn c01_build(cfg: &[u16]) -> Built {
     let users = 4 + s.pick(3);
     let mut setup = vec![];
     rank_setup(&mut s, "#c0", users, &mut setup);
-    if s.chance(60) {
-        rank_setup(&mut s, "&l0", users.min(4), &mut setup);
+    let mut c = CfgSpec::default();
+    match s.pick(10) {
+        0..=4 => rank_setup(&mut s, "&l0", users.min(4), &mut setup),
+        5..=7 => {
+            // a channel from the configuration whose rank lists name connected non-members, members
+            // and a nick that never connects: only members may ever receive a status-addressed copy
+            let mut ch = ChanSpec { name: "&l0".into(), flags: ["", "n", "m", "nt"][s.pick(4)].into(), ..Default::default() };
+            ch.founders = vec!["n0".into()];
+            ch.operators = vec!["n1".into(), "ghost".into(), format!("n{}", users - 1)];
+            ch.half_operators = vec!["n2".into()];
+            ch.voices = vec!["n3".into(), "n1".into(), "phantom".into()];
+            c.channels.push(ch);
+            for i in 0..users {
+                if s.chance(55) {
+                    setup.push((format!("n{}", i), "JOIN &l0".into()));
+                }
+            }
+        }
+        _ => {}
     }
     let prof = Profile::base().with(&[
         (K::Privmsg, 26),
@@ -82,7 +99,7 @@ fn c01_build(cfg: &[u16]) -> Built {
         (K::NewUser, 4),
         (K::CapPost, 4),
     ]);
-    Built { cfg: CfgSpec::default(), prof, prelude_users: users, setup }
+    Built { cfg: c, prof, prelude_users: users, setup }
 }
 
 fn recipients(out: &StepOut, verb: &str, target: &str) -> usize {
@@ -164,7 +181,8 @@ fn c07_build(cfg: &[u16]) -> Built {
             setup.push(("n0".into(), format!("MODE {} +k {}", ch, ["k1", "k2"][s.pick(2)])));
         }
         if s.chance(if heavy { 45 } else { 20 }) {
-            setup.push(("n0".into(), format!("MODE {} +l {}", ch, 1 + s.pick(3))));
+            // boundary values too: 0 admits nobody, `users` never binds
+            setup.push(("n0".into(), format!("MODE {} +l {}", ch, [1, 2, 3, 0, 1, 2, users][s.pick(7)])));
         }
         if s.chance(if heavy { 45 } else { 20 }) {
             setup.push(("n0".into(), format!("MODE {} +i", ch)));
@@ -196,6 +214,7 @@ fn c07_build(cfg: &[u16]) -> Built {
         (K::NewUser, 4),
         (K::Drop, 3),
         (K::Kick, 4),
+        (K::CapPost, 2),
     ]);
     Built { cfg: c, prof, prelude_users: users, setup }
 }
@@ -258,6 +277,7 @@ fn c08_build(cfg: &[u16]) -> Built {
         (K::Invite, 4),
         (K::Nick, 4),
         (K::NewUser, 3),
+        (K::CapPost, 2),
     ]);
     Built { cfg: CfgSpec::default(), prof, prelude_users: users, setup }
 }
@@ -652,6 +672,7 @@ fn c15_build(cfg: &[u16]) -> Built {
         (K::NewUser, 5),
         (K::Drop, 3),
         (K::Whowas, 4),
+        (K::CapPost, 2),
     ]);
     c.opers.push(OperSpec { name: "op0".into(), password: "operpw0".into(), mask: None });
     prof.oper_names.push(("op0".into(), "operpw0".into()));
@@ -752,6 +773,7 @@ fn c16_build(cfg: &[u16]) -> Built {
         (K::List, 3),
         (K::Lusers, 2),
         (K::Nick, 8),
+        (K::CapPost, 2),
     ]);
     c.opers.push(OperSpec { name: "op0".into(), password: "operpw0".into(), mask: None });
     prof.oper_names.push(("op0".into(), "operpw0".into()));
@@ -858,6 +880,7 @@ fn c19_build(cfg: &[u16]) -> Built {
         (K::Userhost, 6),
         (K::Away, 4),
         (K::Kill, 3),
+        (K::CapPost, 2),
     ]);
     oper_cfg(&mut s, &mut c, &mut prof);
     c.default_modes = ["", "", "i", "o", "O", "io", "iw", "oO"][s.pick(8)].to_string();
